@@ -86,6 +86,19 @@ class C02(ProgProp):
                 res.fail("C02|patch-level-api|stream", "make_std_api(%r) decodes %s at row %d where the %s table gives %s" % (
                     vi, got[k:k + 1], k, v, base[k:k + 1]))
             res.classes.append("patch-level-api")
+            # API objects made for earlier cases (other versions) still decode their own code the same way
+            kept = ctx.cache.setdefault("kept_apis", [])
+            for (ovi, oapi, oco, obase) in kept[-6:]:
+                try:
+                    again = [(i.offset, i.opname, i.arg) for i in oapi.get_instructions(oco)]
+                except Exception as e:
+                    again = "raised %s" % type(e).__name__
+                if again != obase:
+                    res.fail("C02|kept-api|stream", "the API object made earlier for %r decodes its code differently now that make_std_api(%r) "
+                             "has been called: %s" % (ovi, vi, str(again)[:120]))
+                    break
+            if got == base:
+                kept.append((vi, api, co, base))
         return res
 
     def classify(self, case, ref, x, c, res):
